@@ -539,35 +539,61 @@ func writeReplayOverlay(repo, root, outDir, pkg string) (string, error) {
 			add(t, []byte(strings.Replace(string(testTmpl), "package PKG", "package "+pkg, 1)))
 		}
 	}
-	// Schedule-controlled replay: in the replay build (only) the package's own
-	// sync.Mutex fields become verifMutex, which enforces the lock acquisition order
-	// recorded in a counterexample (and is a plain mutex otherwise). The rewritten
-	// copies are regenerated from the current source on every run.
-	if ents, err := os.ReadDir(pkgDir); err == nil && len(ov) > 0 {
-		for _, e := range ents {
-			name := e.Name()
-			if e.IsDir() || !strings.HasSuffix(name, ".go") || strings.HasSuffix(name, "_test.go") {
-				continue
+	// Schedule-controlled replay: in the replay build (only) every sync.Mutex of the
+	// repository's packages becomes verifsched.Mutex (package injected below), which
+	// enforces the lock acquisition order recorded in a counterexample and is a plain
+	// mutex otherwise; the target package's reads of the wall clock become reads of the
+	// harness clock (the real clock unless the harness called verifManualClock). The
+	// rewritten copies are regenerated from the current source on every run.
+	const schedPkg = "cuelabs.dev/go/oci/ociregistry/internal/verifsched"
+	schedSrc, err := os.ReadFile(filepath.Join(hdir, "verifsched.go.tmpl"))
+	if err != nil {
+		return "", err
+	}
+	usesSched := false
+	modRoot := filepath.Join(repo, "ociregistry")
+	filepath.Walk(modRoot, func(p string, info os.FileInfo, err error) error {
+		if err != nil || info.IsDir() {
+			if err == nil && info.IsDir() && p != modRoot {
+				if _, statErr := os.Stat(filepath.Join(p, "go.mod")); statErr == nil {
+					return filepath.SkipDir // nested module
+				}
 			}
-			target := filepath.Join(pkgDir, name)
-			if _, dup := ov[target]; dup {
-				continue
-			}
-			src, err := os.ReadFile(target)
-			if err != nil {
-				continue
-			}
-			out := string(src)
-			if strings.Contains(out, "sync.Mutex") {
-				out = strings.ReplaceAll(out, "sync.Mutex", "verifMutex") + "\nvar _ sync.Once // keeps the import used in the replay build\n"
-			}
-			// ... and its reads of the wall clock become reads of the harness clock
-			// (the real clock unless the harness called verifManualClock)
-			if strings.Contains(out, "time.Now()") {
-				out = strings.ReplaceAll(out, "time.Now()", "verifNow()") + "\nvar _ time.Duration // keeps the import used in the replay build\n"
-			}
-			if out != string(src) {
-				add(target, []byte(out))
+			return nil
+		}
+		name := info.Name()
+		if !strings.HasSuffix(name, ".go") || strings.HasSuffix(name, "_test.go") {
+			return nil
+		}
+		if _, dup := ov[p]; dup {
+			return nil
+		}
+		src, err := os.ReadFile(p)
+		if err != nil {
+			return nil
+		}
+		out := string(src)
+		inTarget := filepath.Dir(p)+string(filepath.Separator) == pkgDir
+		if strings.Contains(out, "sync.Mutex") {
+			out = strings.ReplaceAll(out, "sync.Mutex", "verifsched.Mutex") + "\nvar _ sync.Once // keeps the import used in the replay build\n"
+			out = addImport(out, "verifsched", schedPkg)
+			usesSched = true
+		}
+		if inTarget && len(ov) > 0 && strings.Contains(out, "time.Now()") {
+			out = strings.ReplaceAll(out, "time.Now()", "verifNow()") + "\nvar _ time.Duration // keeps the import used in the replay build\n"
+		}
+		if out != string(src) {
+			add(p, []byte(out))
+		}
+		return nil
+	})
+	if usesSched {
+		add(filepath.Join(modRoot, "internal", "verifsched", "verifsched.go"), schedSrc)
+		// glue: the harness API's verifGoID reaches verifsched in the replay build
+		for target, content := range ov {
+			if strings.HasSuffix(target, "zz_verif_api.go") {
+				glue := "package " + packageClause(content) + "\n\nimport verifsched \"" + schedPkg + "\"\n\nfunc init() { verifSetGoID = verifsched.SetGoID }\n"
+				add(strings.TrimSuffix(target, "zz_verif_api.go")+"zz_verif_sched.go", []byte(glue))
 			}
 		}
 	}
@@ -805,6 +831,11 @@ func runWorker(exe, repo, root, prop, pkg string, jobs chan *oneRun) {
 			"-property", prop, "-known", filepath.Join(root, "known_findings.jsonl"))
 		errBuf = &strings.Builder{}
 		cmd.Stderr = errBuf
+		// the interpreter is single-threaded; without a cap each of up to 16 workers lets
+		// the Go collector use a quarter of all cores
+		if os.Getenv("GOMAXPROCS") == "" {
+			cmd.Env = append(os.Environ(), "GOMAXPROCS=3")
+		}
 		var err error
 		stdin, err = cmd.StdinPipe()
 		if err != nil {
@@ -935,4 +966,16 @@ func solverName(k string) string {
 		return "cvc5 1.0.x --incremental"
 	}
 	return k
+}
+
+// addImport inserts an import declaration right after the package clause.
+func addImport(src, name, path string) string {
+	lines := strings.SplitAfter(src, "\n")
+	for i, l := range lines {
+		if strings.HasPrefix(strings.TrimSpace(l), "package ") {
+			lines[i] = l + "\nimport " + name + " \"" + path + "\"\n"
+			return strings.Join(lines, "")
+		}
+	}
+	return src
 }
